@@ -53,7 +53,8 @@ def gen_rules(rng, bad=True):
         if rng.random() < 0.3:
             r["xreply_ok"] = rng.choice(["login.svc", "drone.net", "DRONE.NET", "combo.svc", "other.svc"])
         if rng.random() < 0.3:
-            r["trust_username"] = rng.choice(["yes", "no", "1", "0", "true", "on"])
+            # (a word that is no boolean keyword - the keywords are lower-case - does not switch the upgrade on)
+            r["trust_username"] = rng.choice(["yes", "no", "1", "0", "true", "on", "True", "YES", "y", "maybe", "2", "enabled", "off"])
         rules.append(r)
     if bad and rng.random() < 0.12:
         # a rule whose address is no mask at all (a typing error), together with an account nobody has: it never places anybody, and
